@@ -293,12 +293,13 @@ def hk_reference(N, sm, to, F0, F1, la, mu, l, M):
             dS = contract(Cm, sym(mm(tr_(Fl), X)))
             col = tens(add(mm(X, Sm), mm(Fl, dS)), N)
         else:
-            if eul:
-                Cs = Cm
-            else:
-                raise AssertionError
             Lg = mm(X, iF)
-            dtau = add(contract(Cs, sym(Lg)), add(mm(Lg, taul), mm(taul, tr_(Lg))))
+            if eul:
+                cd = contract(Cm, sym(Lg))
+            else:
+                # spatial moduli = push-forward of the material moduli: c : d = F (Cse : (F^T d F)) F^T
+                cd = mm(mm(Fl, contract(Cm, mm(mm(tr_(Fl), sym(Lg)), Fl))), tr_(Fl))
+            dtau = add(cd, add(mm(Lg, taul), mm(taul, tr_(Lg))))
             if to == 3:
                 col = mandel(dtau, N)
             else:
@@ -338,12 +339,16 @@ def unit_ref(name):
         if N == 2:
             M[0][2] = M[1][2] = M[2][0] = M[2][1] = ZERO
             M[2][2] = ONE
+        # decomposition answered for the first handler (F0): independent random values
+        la_ = c24ref.distinct_vp(rng)
+        n = 3 if N == 3 else 2
         for i in range(3):
             env["vp%d" % i] = l[i]
-        n = 3 if N == 3 else 2
+            env["vpa%d" % i] = la_[i]
         for i in range(n):
             for j in range(n):
                 env["m%d%d" % (i, j)] = M[i][j]
+                env["ma%d%d" % (i, j)] = rq(rng)
         if N == 1:
             return env, hk1d_reference(sm, to, F0, F1, la, mu)
         if to in (0,) or to == 1 or to == 2:
